@@ -354,7 +354,7 @@ fn eval13(case: &J) -> Eval {
 		let got: Vec<u8> = o.stdout.iter().copied().filter(|b| *b != b'\r').collect();
 		if p.to == Fmt::Msgpack {
 			if o.code != Some(1) || !got.is_empty() {
-				ev.violate("tty/msgpack-written", format!("xt {:?}: stdout is a REAL terminal and the target is MessagePack: ended with {}, {} bytes reached the terminal", c.args, o.status(), got.len()));
+				ev.violate("real/tty/msgpack-written", format!("xt {:?}: stdout is a REAL terminal and the target is MessagePack: ended with {}, {} bytes reached the terminal", c.args, o.status(), got.len()));
 			}
 		} else if o.code != Some(ex.exit) {
 			ev.violate(format!("exit/run-expected-{}-got-{}", ex.exit, o.code.unwrap_or(-1)), format!("xt {:?}: on a real terminal: expected exit {}, got {}", c.args, ex.exit, o.status()));
@@ -635,7 +635,7 @@ fn eval14(case: &J) -> Eval {
 			return ev;
 		}
 		if ex.exit == 0 && (o.code != Some(0) || o.stdout != ex.maximal) {
-			ev.violate("library-agreement/fifo", format!("xt {:?}: input {name} is a REAL FIFO written in {chunk}-byte pieces; the library (reader mode) gives {} bytes and exit 0, the binary ended with {} and {} bytes; stderr {:?}", c.args, ex.maximal.len(), o.status(), o.stdout.len(), show(&o.stderr)));
+			ev.violate("real/library-agreement/fifo", format!("xt {:?}: input {name} is a REAL FIFO written in {chunk}-byte pieces; the library (reader mode) gives {} bytes and exit 0, the binary ended with {} and {} bytes; stderr {:?}", c.args, ex.maximal.len(), o.status(), o.stdout.len(), show(&o.stderr)));
 		}
 		if ex.exit != 0 && o.code == Some(0) {
 			ev.violate("library-agreement/cli-succeeds", format!("xt {:?}: real FIFO input: the library fails ({}), the binary exited 0", c.args, ex.failure_kind));
